@@ -77,6 +77,8 @@ type exporter struct {
 	dbcFile *dbc.File
 
 	currDBCMsg *dbc.Message
+	// currMsgMuxCount is the number of top level multiplexer signals of the message being exported
+	currMsgMuxCount int
 
 	attNames     map[string]bool
 	nodeAttNames map[string]bool
@@ -356,6 +358,13 @@ func (e *exporter) exportMessage(msg *Message) {
 
 	e.currDBCMsg = dbcMsg
 
+	e.currMsgMuxCount = 0
+	for _, sig := range msg.Signals() {
+		if sig.Kind() == SignalKindMultiplexer {
+			e.currMsgMuxCount++
+		}
+	}
+
 	for _, sig := range msg.Signals() {
 		e.exportSignal(sig, msgID)
 	}
@@ -528,7 +537,9 @@ func (e *exporter) exportMultiplexerSignal(muxSig *MultiplexerSignal, dbcMsgID u
 	e.currDBCMsg.Signals = append(e.currDBCMsg.Signals, dbcSig)
 
 	isExtended := false
-	nestedMux := dbcSig.IsMultiplexed
+	// with more than one multiplexer in the message, the multiplexed signals
+	// have to name their multiplexer in the extended multiplexing section
+	nestedMux := dbcSig.IsMultiplexed || e.currMsgMuxCount > 1
 
 	sigNames := []string{}
 	sigGroupIDs := make(map[string][]int)
